@@ -187,16 +187,20 @@ func (i *Instance) ShutdownCallbacks() []error {
 // Restart replaces the servers in i with new servers created from
 // executing the newCasketfile. Upon success, it returns the new
 // instance to replace i. Upon failure, i will not be replaced.
-func (i *Instance) Restart(newCasketfile Input) (*Instance, error) {
+func (i *Instance) Restart(newCasketfile Input) (result *Instance, err error) {
 	log.Println("[INFO] Reloading")
 
 	i.wg.Add(1)
 	defer i.wg.Done()
 
-	var err error
 	// if something went wrong on restart then run onRestartFailed callbacks
 	defer func() {
 		r := recover()
+		if r != nil {
+			// a recovered panic is a failed restart like any other: the
+			// caller keeps the old instance and is told about it
+			result, err = i, fmt.Errorf("panic during restart: %v", r)
+		}
 		if err != nil || r != nil {
 			for _, fn := range i.OnRestartFailed {
 				if err := fn(); err != nil {
@@ -505,8 +509,10 @@ func startWithListenerFds(cdyfile Input, inst *Instance, restartFds map[string]r
 	// are set up; if the start fails those hooks must not stay behind
 	oldEventHooks := cloneEventHooks()
 	var err error
+	complete := false
 	defer func() {
-		if err != nil {
+		// not complete covers a panic on the way as well as a returned error
+		if err != nil || !complete {
 			restoreEventHooks(oldEventHooks)
 			instancesMu.Lock()
 			for i, otherInst := range instances {
@@ -582,6 +588,7 @@ func startWithListenerFds(cdyfile Input, inst *Instance, restartFds map[string]r
 	started = true
 	mu.Unlock()
 
+	complete = true
 	return nil
 }
 
